@@ -243,5 +243,6 @@ func buildCorpus(thorough bool) []corpusCase {
 	cs = append(cs, storedCorpus()...) // stored form of manifests / deployed contracts (storedform.go)
 	cs = append(cs, dagCorpus()...)    // shared compounds at the item-count limit (dag.go)
 	cs = append(cs, jsonCorpus()...)   // typed JSON of stack items (itemjson.go)
+	cs = append(cs, entryCorpus()...)  // several decoding entry points, integrity fields (entries.go)
 	return cs
 }
